@@ -443,7 +443,7 @@ func (e *Enc) havocAll(s *State) *State {
 	// keep non-escaping locals and ghost protocol variables marked private
 	names := make([]string, 0)
 	for name := range e.heapSorts {
-		if strings.HasPrefix(name, "L$") {
+		if strings.HasPrefix(name, "L$") || e.frozenHeap(name) {
 			names = append(names, name)
 		}
 	}
@@ -478,4 +478,28 @@ func (e *Enc) havocNames(s *State, names []string) {
 		}
 		s.vals[n] = nv
 	}
+}
+
+
+// frozenHeap: name is the heap of a field declared `frozen` (assigned only during construction,
+// checked module-wide by FRAME.frozen): no call can change it.
+func (e *Enc) frozenHeap(name string) bool {
+	if !strings.HasPrefix(name, "F$") || len(e.prog.cs.Frozen) == 0 {
+		return false
+	}
+	if e.frozenNames == nil {
+		e.frozenNames = map[string]bool{}
+		for _, fz := range e.prog.cs.Frozen {
+			t := e.prog.resolveType(fz.PkgPath, fz.Type)
+			if t == nil {
+				continue
+			}
+			e.frozenNames["F$"+e.tr.typeID(t)+"$"+fz.Field] = true
+		}
+	}
+	if e.frozenNames[name] {
+		e.assumed["fields declared frozen keep their value across calls (justified by the FRAME.frozen scan of every function in the module)"] = true
+		return true
+	}
+	return false
 }
